@@ -1,6 +1,6 @@
 """C19 Components follow the latest setting; unsubscribing is safe in any order (spec/EventBus.tla, ConfigCells.tla)."""
 import json, time
-import vlib, eventfam, cfgfam
+import vlib, eventfam, cfgfam, janfam
 
 
 def run(tier, seed):
@@ -23,19 +23,22 @@ def run(tier, seed):
                                          {"kind": "cfgdrv", "problem": {k: p[k] for k in ("cats", "line", "event", "context")}, "input": p["replay_input"]}))
         else:
             notes.append("config replay: first mismatch of a behaviour concerns %s" % p["cats"])
+    jp = janfam.check_part("C19", tier, seed + 3)
+    viol += jp["violations"]
+    notes += jp["notes"]
     kinds = {}
     for r in runs:
         for k, v in r["kinds"].items():
             kinds["%s:%s" % (r["target"], k)] = v
     cov = {"states": m.get("distinct"), "transitions": m.get("states"),
-           "traces_validated_against_impl": sum(r["behaviours"] for r in runs) + c["behaviours"],
+           "traces_validated_against_impl": sum(r["behaviours"] for r in runs) + c["behaviours"] + jp["traces"],
            "samples": [runs[0]["sample"]], "evaluations": sum(r["lines"] for r in runs) + c["lines"], "distinct_nontrivial": len(kinds) + len(c["kinds"]),
            "rule": "TLC explores all subscribe/unsubscribe/fire sequences over 3 listeners with every completion order of the asynchronous calls "
                    "(EventBus) and checks UnsubNeverPanics / ShutDownNotNotified / OthersKeepNotifications / FollowersHaveLatest; the two deviations of the "
                    "pinned tree are kept as negative controls that must violate them; generated schedules are replayed on the real utils/event.Event and "
                    "config.ConfigProp with gated listeners (the schedule decides the completion order) and on live components (cache limit, memory cap, "
-                   "janitor interval, log level) through the API update path; TLC judges the recorded observations (EventBusTrace, ConfigCellsTrace).",
-           "negative_controls": neg, "step_kinds": kinds, "config_replay": {k: c[k] for k in ("behaviours", "lines", "kinds")}, "notes": notes[:10]}
+                   "janitor interval, log level) through the API update path; TLC judges the recorded observations (EventBusTrace, ConfigCellsTrace). Back-to-back changes while a component is busy: spec/JanitorCtl.tla models the listener -> one-slot mailbox -> janitor hand-over (LatestGoverns, Settles; drop-when-full as negative control); every visible schedule of changes and hold/release of the janitor up to length 5/6 runs on the real cache and TLC judges the interval the janitor ends up on (JanitorCtlTrace).",
+           "negative_controls": neg, "step_kinds": kinds, "janitor_interval_protocol": jp["coverage"].get("janitor_interval_protocol"), "config_replay": {k: c[k] for k in ("behaviours", "lines", "kinds")}, "notes": notes[:10]}
     vlib.write_evidence("C19", tier, "model_checking", cov, time.time() - t0, len(viol),
                         ["cache-policy and retry switches are read live on every request (covered by the proxy replays under C03/C04/C07)"])
     return viol
@@ -43,6 +46,8 @@ def run(tier, seed):
 
 def replay(path):
     art = json.load(open(path))
+    if art.get("kind") == "jandrv":
+        return [path] if janfam.replay(art) else []
     if art.get("kind") == "cfgdrv":
         r = cfgfam.replay(art["input"]["behaviours"])
         return [path] if any("C19" in p["cats"] for p in r["problems"]) else []
